@@ -578,10 +578,11 @@ class PendingAssign(PendingNode[Assign | AnnAssign]):
         return self.nsp.get_assign(target.id, value)
 
     def assign_subscript(self, target: Subscript, value: expr):
-        _slice = target.slice
+        # transform first: the name "slice" added by convert_slice is a builtin,
+        # not a name of the script
+        _slice = expr_transf(self.nsp, target.slice)
         if isinstance(_slice, Slice):
             _slice = utils.convert_slice(_slice)
-        _slice = expr_transf(self.nsp, _slice)
 
         return Call(
             func=Attribute(
@@ -771,7 +772,9 @@ class PendingAugAssign(PendingNode[AugAssign]):
                 )
             )
 
-            slice_expr = target.slice
+            # transform first: the name "slice" added by convert_slice is a
+            # builtin, not a name of the script
+            slice_expr = expr_transf(self.nsp, target.slice)
             if isinstance(slice_expr, Slice):
                 slice_expr = utils.convert_slice(slice_expr)
 
@@ -779,7 +782,7 @@ class PendingAugAssign(PendingNode[AugAssign]):
             return_list.append(
                 NamedExpr(
                     target=tmp_slice_name,
-                    value=expr_transf(self.nsp, slice_expr),
+                    value=slice_expr,
                 )
             )
 
